@@ -104,8 +104,8 @@ Lemma in_text_bsel m i : bsel i = true -> in_text m i = ctext i.
 Proof. destruct i; try reflexivity. discriminate. Qed.
 
 Definition EL (d : nat) : Prop := forall m e, eokd d e = true -> etextd d e (ex_text m e).
-Definition PL (d : nat) : Prop := forall k els, ml_pattern (eokd d) (Pattern els) = true ->
-  ml_value_layout (etextd d) els (pat_text k (Pattern els)).
+Definition PL (d : nat) : Prop := forall k els, wl_pattern (eokd d) (Pattern els) = true ->
+  wl_value_layout (etextd d) els (pat_text k (Pattern els)).
 
 Lemma all_blank_closing m e : all_blank (if is_sel e then ind m else []).
 Proof. destruct (is_sel e); [apply all_blank_sp | reflexivity]. Qed.
@@ -154,31 +154,32 @@ Proof.
     constructor; try assumption. apply (IH false Hr).
 Qed.
 
-Lemma pat_text_layout d k els :
+(* a value (class wl_pattern): the serializer writes the inline form only
+   if the value has a single line or may not start a block line; then some continuation line is not indented *)
+Lemma pat_text_layout_wl d k els :
   (forall m e, eokd d e = true -> exists b1 X b2, pl_text m e = 123%N :: b1 ++ X ++ b2 ++ [125%N] /\ all_blank b1 /\ all_blank b2 /\ etextd d e X) ->
-  ml_pattern (eokd d) (Pattern els) = true -> ml_value_layout (etextd d) els (pat_text k (Pattern els)).
+  wl_pattern (eokd d) (Pattern els) = true -> wl_value_layout (etextd d) els (pat_text k (Pattern els)).
 Proof.
-  intros Hpl Hp. destruct (ml_pattern_parts _ els Hp) as (_ & Hs & _).
+  intros Hpl Hp. destruct (wl_pattern_parts _ els Hp) as (_ & Hs & _).
   rewrite pat_text_eq. pose proof (body_text_layout d (S k) els (Hpl (S k)) false Hs) as HL.
   destruct (starts_on_new_line (Pattern els)) eqn:Est.
   - change (10%N :: ind (S k) ++ body_text (S k) els) with (sp 0 ++ lf ++ [] ++ sp (4 * S k) ++ body_text (S k) els).
-    apply (mvl_block (etextd d) els 0 lf 0 [] (4 * S k) (body_text (S k) els)); [|left; reflexivity | constructor | lia | exact HL].
-    unfold starts_on_new_line in Est. apply andb_prop in Est as [Hd _].
-    unfold has_leading_text_dot in Hd. unfold first_byte_ok_for_block. cbn [pattern_elements] in *.
-    destruct els as [|[[|b t]|e] r]; try reflexivity. exact Hd.
+    apply (wvl_block (etextd d) els 0 lf 0 [] (4 * S k) (body_text (S k) els)); [|left; reflexivity | constructor | lia | exact HL].
+    unfold starts_on_new_line in Est. apply andb_prop in Est as [Hd _]. rewrite first_ok_leading_dot. exact Hd.
   - change ([32%N] ++ body_text (S k) els) with (sp 1 ++ body_text (S k) els).
-    apply (mvl_inline (etextd d) els 1 (4 * S k) (body_text (S k) els)); [lia | exact HL].
+    apply (wvl_inline (etextd d) els 1 (4 * S k) (body_text (S k) els) (proj1 (wl_inline_hit _ els Hp Est)) (proj2 (wl_inline_hit _ els Hp Est))); [lia | exact HL].
 Qed.
+
 
 (* the variants *)
 Lemma vars_text_layout d m1 vs : PL d -> forallb (variant_ok (eokd d)) vs = true -> vs <> [] ->
-  exists W0 VS, vars_text m1 vs = W0 ++ VS /\ all_blank W0 /\ variants_layout (ml_value_layout (etextd d)) vs VS.
+  exists W0 VS, vars_text m1 vs = W0 ++ VS /\ all_blank W0 /\ variants_layout (wl_value_layout (etextd d)) vs VS.
 Proof.
   intros HPL. induction vs as [|v r IH]; intros Hok Hne; [congruence|].
   cbn [forallb] in Hok. apply andb_prop in Hok as [Hv Hr]. destruct v as [k [els] dflt].
   unfold variant_ok in Hv. apply andb_prop in Hv as [Hk Hp]. pose proof (HPL m1 els Hp) as HV.
   cbn [vars_text var_text].
-  assert (Hrest : exists W VSr, vars_text m1 r = W ++ VSr /\ all_blank W /\ variants_layout (ml_value_layout (etextd d)) r VSr).
+  assert (Hrest : exists W VSr, vars_text m1 r = W ++ VSr /\ all_blank W /\ variants_layout (wl_value_layout (etextd d)) r VSr).
   { destruct r as [|v2 r2]; [exists [], []; split; [reflexivity | split; [reflexivity | constructor]]|].
     apply (IH Hr). discriminate. }
   destruct Hrest as (W & VSr & EW & HW & HVSr). rewrite EW.
@@ -211,16 +212,17 @@ Proof.
 Qed.
 
 Lemma PL_of_EL0 : EL 0 -> PL 0.
-Proof. intros _ k els. apply pat_text_layout. intros m e. apply pl_text_layout0. Qed.
+Proof. intros _ k els. apply pat_text_layout_wl. intros m e. apply pl_text_layout0. Qed.
 
 Lemma PL_S d : EL d -> EL (S d) -> PL (S d).
-Proof. intros H1 H2 k els. apply pat_text_layout. intros m e. apply (pl_text_layoutS d m e H1 H2). Qed.
+Proof. intros H1 H2 k els. apply pat_text_layout_wl. intros m e. apply (pl_text_layoutS d m e H1 H2). Qed.
 
 Lemma layouts_all d : EL d /\ PL d.
 Proof.
   induction d as [|d [HEL HPL]]; [split; [exact EL_0 | exact (PL_of_EL0 EL_0)]|].
   pose proof (EL_S d HEL HPL) as HS. split; [exact HS | exact (PL_S d HEL HS)].
 Qed.
+
 
 (* ---------------------------------------------------------------------------------------------- *)
 (* 3. The serializer on split trees                                                                 *)
@@ -417,7 +419,7 @@ Qed.
 (* ---- split expressions and patterns of depth d ---- *)
 Definition sexp (d : nat) (e : expression) : Prop := eokd d (join_expr e) = true /\ goodd d e.
 Definition spat (d : nat) (els : list pattern_element) : Prop :=
-  ml_pattern (eokd d) (Pattern (jels els)) = true /\ Forall (text_ok (goodd d)) els.
+  wl_pattern (eokd d) (Pattern (jels els)) = true /\ Forall (text_ok (goodd d)) els.
 
 Lemma sexp_0 e : sexp 0 e -> exists i, e = Inline i /\ binline i = true.
 Proof.
@@ -506,7 +508,7 @@ Lemma spat_facts d els : spat d els ->
   (forall e, In (PlaceableElement e) els -> sexp d e) /\
   (forall v, In (TextElement v) els -> v <> [] /\ lf_last v /\ existsb (N.eqb 13) v = false).
 Proof.
-  intros [Hp Hok]. destruct (ml_pattern_parts _ _ Hp) as (Hne & Hs & _ & Hl & _).
+  intros [Hp Hok]. destruct (wl_pattern_parts _ _ Hp) as (Hne & Hs & _ & Hl & _).
   pose proof (Forall_impl _ (text_ok_nonempty (goodd d)) Hok) as Htne.
   split; [intros ->; apply Hne; reflexivity|]. split; [|split].
   - apply no_final_lf_map. apply no_final_lf_join; [apply text_nonempty_map, Htne | apply ml_last_ok_no_final_lf, Hl].
@@ -776,7 +778,7 @@ Qed.
 (* a pattern as the parser returns it, of depth d: it joins (at every level) to a pattern of sel_pattern d; no
    text element, at any level, is empty, and a line feed is the last byte of its text element *)
 Definition ssel_pok (d : nat) (els : list pattern_element) : bool :=
-  ml_pattern (eokd d) (Pattern (jels els)) && forallb (text_okb2 (goodb d)) els.
+  wl_pattern (eokd d) (Pattern (jels els)) && forallb (text_okb2 (goodb d)) els.
 Definition ssel_resource (d : nat) (t : resource) : bool := g_resource (ssel_pok d) t.
 
 Lemma ssel_pok_spat d els : ssel_pok d els = true <-> spat d els.
@@ -785,7 +787,7 @@ Proof.
   split; intros [H1 H2]; (split; [exact H1|]); intros el Hel; apply (text_okb2_spec _ _ el (goodb_spec d)), H2, Hel.
 Qed.
 
-Definition ssel_vlay (d : nat) (els : list pattern_element) (V : bytes) : Prop := ml_value_layout (etextd d) (jels els) V.
+Definition ssel_vlay (d : nat) (els : list pattern_element) (V : bytes) : Prop := wl_value_layout (etextd d) (jels els) V.
 Definition ssel_ptext (d : nat) (k : nat) (els : list pattern_element) : bytes := pat_text k (Pattern (jels els)).
 Definition rel3 (d : nat) (els'' els : list pattern_element) : Prop :=
   stream els'' = stream els /\ Forall (text_ok (goodd d)) els''.
@@ -837,14 +839,14 @@ Lemma ssel_get_pattern d bs els V T used c nx p n :
   exists els', get_pattern bs n p = Ok (Some (Pattern els')) (used + (length V + p)) /\ rel3 d els' els.
 Proof.
   intros Hp HV HT H Hn. apply ssel_pok_spat in Hp. destruct (facts_all d) as (R & J & W & P).
-  destruct (get_pattern_ml (eokd d) (etextd d) (goodd d) R J P bs (jels els) V T used c nx p n (proj1 Hp) HV HT H Hn)
+  destruct (get_pattern_wl (eokd d) (etextd d) (goodd d) R J P bs (jels els) V T used c nx p n (proj1 Hp) HV HT H Hn)
     as (els' & E & _ & Hok & Hst).
   exists els'. split; [exact E|]. split; [rewrite Hst; apply (stream_jels d els Hp) | exact Hok].
 Qed.
 
 Lemma ssel_strip d els V : ssel_pok d els = true -> ssel_vlay d els V ->
   exists k V0, V = sp k ++ V0 /\ ssel_vlay d els (sp 0 ++ V0) /\ forall T, head_not is_space (V0 ++ T).
-Proof. intros Hp HV. apply ssel_pok_spat in Hp. apply (ml_value_layout_strip (eokd d) (etextd d) _ V (proj1 Hp) HV). Qed.
+Proof. intros Hp HV. apply ssel_pok_spat in Hp. apply (wl_value_layout_strip (eokd d) (etextd d) _ V (proj1 Hp) HV). Qed.
 
 Definition ssel_resource_text (d : nat) (t : resource) : bytes := g_resource_text (ssel_ptext d) t.
 
@@ -920,7 +922,7 @@ Lemma sml_pok_ssel els : sml_pok els = true -> ssel_pok 0 els = true.
 Proof.
   intros Hp. destruct (sml_pok_parts els Hp) as (Hml & Hok & Hsp). apply ssel_pok_spat. split; [|exact Hok].
   unfold jels. rewrite (split_join_map els Hsp).
-  apply (ml_pattern_mono eoks (eokd 0)); [|exact Hml].
+  apply (wl_pattern_mono eoks (eokd 0)); [|exact Hml].
   intros [sel vs | i]; [discriminate|]. apply simple_binline.
 Qed.
 
